@@ -41,12 +41,28 @@ class VirtualFile(object):
         self.coco_file_list = []
         self.file_exists = False
 
+    @staticmethod
+    def starts_with_cassette_header(buffer):
+        """
+        A cassette image starts with an optional blank gap and a leader of $55 bytes
+        that is followed by a name block ($3C $00 $0F). A cassette image may be as
+        large as a disk image, so this is checked before trying to read a disk.
+
+        :param buffer: the list of bytes that make up the host file
+        :return: True if the buffer starts like a cassette image
+        """
+        pointer = 0
+        while pointer < len(buffer) and buffer[pointer] in (0x00, 0x55):
+            pointer += 1
+        return pointer > 0 and buffer[pointer - 1] == 0x55 and list(buffer[pointer:pointer + 3]) == [0x3C, 0x00, 0x0F]
+
     def get_coco_files(self):
-        try:
-            disk_file = DiskFile(buffer=self.source_file.get_buffer())
-            return disk_file.list_files(), VirtualFileType.DISK
-        except VirtualFileValidationError:
-            pass
+        if not self.starts_with_cassette_header(self.source_file.get_buffer()):
+            try:
+                disk_file = DiskFile(buffer=self.source_file.get_buffer())
+                return disk_file.list_files(), VirtualFileType.DISK
+            except VirtualFileValidationError:
+                pass
 
         try:
             cassette_file = CassetteFile(buffer=self.source_file.get_buffer())
